@@ -280,7 +280,7 @@ def O3(inp, n):
     return Res(cl, nontrivial=any(p.conn[x.id] for x in p.observers), obs=lambda: dict(conn=p.conn, sent=[(nd.id, len(m.get('entries', []))) for nd, m in tr.sent], exc=show(exc)))
 
 
-@obligation('F2', props=('C20', 'C14', 'C03'), quick=[dict(N=3, n=2)], thorough=[dict(N=N, n=2) for N in (2, 3, 5)], stubs=_STUBS,
+@obligation('F2', props=('C20', 'C14', 'C03', 'C07'), quick=[dict(N=3, n=2)], thorough=[dict(N=N, n=2) for N in (2, 3, 5)], stubs=_STUBS,
             bounds='N<=5, any role, any tables; a transport connect or disconnect notification for any voter')
 def F2(inp, N, n):
     """connection notifications are not replies: a connect / disconnect notification changes nothing but the connected set -
